@@ -1269,6 +1269,9 @@ STATE_SWITCH:
                         // We now need to check if this is the last boundary in the payload
                         parser->parser_state = STATE_BOUNDARY_IS_LAST2;
 
+                        // The byte that decides that may only arrive with the next chunk.
+                        if (pos >= len) return HTP_OK;
+
                         goto STATE_SWITCH;
                     }
                 } // while
